@@ -167,6 +167,39 @@ func genC12(c *Ctx) {
 			c.Case("pk-of-aggregated-key-history", "pk.of 0x"+sum.Text(16), ans)
 		}
 	}
+	// seeds that are adjacent slices of ONE buffer (a callee that appends to the seed it was given overwrites the first
+	// byte of the next one): every key is generated twice, before and after its neighbours were used
+	for _, al := range algos {
+		for _, l := range []int{32, 33, 48, 64} {
+			buf := c.bytes(4 * l)
+			for i := range buf {
+				buf[i] |= 1 // no zero bytes: an appended zero is visible
+			}
+			snap := append([]byte{}, buf...)
+			var first []string
+			for pass := 0; pass < 2; pass++ {
+				for j := 0; j < 4; j++ {
+					seed := buf[j*l : (j+1)*l] // cap reaches to the end of buf
+					sk, err := crypto.GeneratePrivateKey(al.a, seed)
+					enc := "err"
+					if err == nil {
+						enc = hx(sk.Encode())
+					}
+					if pass == 0 {
+						first = append(first, enc)
+						c.Case("keygen-adjacent-seeds/"+al.name, fmt.Sprintf("keygen sk %s %s", al.name, hx(snap[j*l:(j+1)*l])), "ok "+enc)
+					} else if enc != first[j] {
+						c.Case("keygen-adjacent-seeds/second-pass", "expect same #", "key-of-seed-"+fmt.Sprint(j)+"-changed-after-neighbours-were-used")
+					}
+				}
+			}
+			verdict := "unchanged"
+			if !bytes.Equal(buf, snap) {
+				verdict = "seed-buffer-modified"
+			}
+			c.Case("keygen-adjacent-seeds/buffer", "expect unchanged #", verdict)
+		}
+	}
 	// key generation by several goroutines at once (different seeds and algorithms): every key is the one the model
 	// derives from its seed (a derivation that goes through shared scratch state gives wrong keys only when calls overlap)
 	{
